@@ -96,6 +96,17 @@ def main():
                 mask = np.array([str(v) == g for v in labels])
                 subs[g] = dict(mask=mask.tolist(), res=call(da.isel(time=np.where(mask)[0]), None, **kw))
             rec["subs"] = subs
+        # the same call with the observations OUTSIDE the calibration window scaled (positive stays positive, zero stays zero, nodata
+        # stays nodata): the fit sees the window's samples only, so the indices of the cells inside the window must not move
+        if rec["main"].get("raised") is None:
+            bv = c["time"][0] if c["b"] is None else c["b"]
+            ev = c["time"][-1] if c["e"] is None else c["e"]
+            inside = np.array([bv <= t <= ev for t in c["time"]])
+            d2 = data.copy()
+            sel = (~inside)[None, None, :] & (d2 != c["nodata"]) & (d2 > 0)
+            d2[sel] = np.minimum(d2[sel].astype("int64") * 3 + 1, 30000).astype(d2.dtype)
+            da2 = xr.DataArray(d2, dims=("y", "x", "time"), coords={"time": tix}, attrs={"nodata": c["nodata"]})
+            rec["outside_scaled"] = dict(inside=inside.tolist(), n_changed=int(sel.sum()), res=call(da2, c.get("groups"), **kw))
         res.append(rec)
     out["spi"] = res
     print("@@RESULT@@" + json.dumps(out))
